@@ -1,5 +1,6 @@
 import Litep2pVerif.Common.Parse
 import Litep2pVerif.Model.Manager.Proto
+import Litep2pVerif.Model.Manager.Facade
 /-! Line-protocol driver for the connection-manager model (C05, C06). Same label discipline as the
 adapter `src/verif/c05.rs`: `as=cK` names the id of the attempt an operation starts; the first use
 of an unknown label in an event takes a fresh id from the shared counter. -/
@@ -14,6 +15,8 @@ structure State where
   names : List (Nat × String) := []
   /-- peers mentioned so far (the model's peer map is a total function) -/
   seen : List Nat := []
+  /-- facade level: events are printed as `Litep2p::next_event` hands them to the user -/
+  facade : Bool := false
 
 def init : State := {}
 
@@ -111,6 +114,22 @@ def showEv (st : State) : Ev → String
   | .openFailure c errs =>
     s!"openfail:{connName st c}:{joinWith "|" (errs.map fun x => showAddr x.1 ++ "=" ++ showKind x.2)}"
 
+def showErrs (errs : List (Multiaddr × DialErr)) : String :=
+  joinWith "|" (errs.map fun x => showAddr x.1 ++ "=" ++ showKind x.2)
+
+/-- A `Litep2pEvent` (no connection id on failures). -/
+def showUEv (st : State) : UEv → String
+  | .established p ep =>
+    s!"est:{p}:{connName st ep.conn}:{if ep.isListener then "listener" else "dialer"}:{showAddr ep.addr}"
+  | .closed p c => s!"closed:{p}:{connName st c}"
+  | .dialFailure a e => s!"udialfail:{showAddr a}:{showKind e}"
+  | .listDialFailures errs => s!"ulist:{showErrs errs}"
+
+/-- What the poller of the node sees: the manager's events, or (facade level) their translation
+by `Litep2p::next_event`. -/
+def showEvents (st : State) (evs : List Ev) : List String :=
+  if st.facade then (facadeEvents evs).map (showUEv st) else evs.map (showEv st)
+
 def showState (st : State) : PeerState → Option String
   | .disconnected none => none
   | .disconnected (some d) => some s!"D({connName st d.conn})"
@@ -143,7 +162,7 @@ def observe (st : State) (ps : PS) (res : String) (out : Out) : String :=
   if out.panic then "panic debug-assert" else
   let g := ps.g
   let states := st.seen.filterMap (fun p => (showState st (stateOf g.m p)).map (fun s => s!"{p}:{s}"))
-  let base := s!"{res} ; calls={dash (out.calls.map (showCall st))} ; ev={dash (out.events.map (showEv st))} ; st={dash states} ; pend={g.m.pending.length} acc={g.m.pendingAccept.length} lim={g.m.limits.incoming.length}/{g.m.limits.outgoing.length} oe={g.m.openingErrors.length}"
+  let base := s!"{res} ; calls={dash (out.calls.map (showCall st))} ; ev={dash (showEvents st out.events)} ; st={dash states} ; pend={g.m.pending.length} acc={g.m.pendingAccept.length} lim={g.m.limits.incoming.length}/{g.m.limits.outgoing.length} oe={g.m.openingErrors.length}"
   if ps.order.isEmpty then base
   else
     let lens := (List.range ps.order.length).map (fun j => toString (ps.chans j).length)
@@ -271,7 +290,7 @@ def step (st : State) (line : String) : State × String :=
   match ts, st.ps with
   | ["limits", a, b], _ =>
     match limit? a, limit? b with
-    | some a, some b => ({ ps := some { g := G.init ⟨a, b⟩ } }, "ok")
+    | some a, some b => ({ ps := some { g := G.init ⟨a, b⟩ }, facade := false }, "ok")
     | _, _ => (st, "bad-op")
   | _, none => (st, "bad-op")
   | ["protocols", n, cap], some ps =>
@@ -320,6 +339,18 @@ def step (st : State) (line : String) : State × String :=
       match p.toNat? with
       | some p => run (see st [p]) ps (.dial p (choiceOf obsPart)) label
       | none => (st, "bad-op")
+    -- facade level: `Litep2p::dial` / `dial_address` forward to the manager (`facadeDial`,
+    -- `facadeDialAddress` are `dial`, `dialAddress`), `fnext` polls once more
+    | ["facade"] => ({ st with facade := true }, "ok")
+    | "fdial" :: p :: _ =>
+      match p.toNat? with
+      | some p => run (see st [p]) ps (.dial p (choiceOf obsPart)) label
+      | none => (st, "bad-op")
+    | "fdialaddr" :: a :: _ =>
+      match parseAddr a with
+      | some a => run (see st (peersOfAddr a)) ps (.dialAddress a) label
+      | none => (st, "bad-op")
+    | ["fnext"] => finish st ps "-" {} none obsPart
     | "dialaddr" :: a :: _ =>
       match parseAddr a with
       | some a => run (see st (peersOfAddr a)) ps (.dialAddress a) label
